@@ -24,6 +24,7 @@ from cryptodatahub.dnsrec.algorithm import DnsRrType, DnsSecAlgorithm, DnsSecDig
 from cryptoparser.common.base import NumericRangeParsableBase, OneByteEnumParsable, Serializable, TwoByteEnumParsable
 from cryptoparser.common.exception import NotEnoughData, TooMuchData
 from cryptoparser.common.parse import ByteOrder, ComposerBinary, ParsableBase, ParserBinary
+from cryptoparser.common.utils import convert_naive_datetime_to_utc
 
 
 class DnsSecProtocol(enum.Enum):
@@ -427,8 +428,14 @@ class DnsRecordRrsig(ParsableBase):  # pylint: disable=too-many-instance-attribu
         validator=attr.validators.instance_of(six.integer_types),
         metadata={'human_readable_name': 'Original TTL'}
     )
-    signature_expiration = attr.ib(validator=attr.validators.instance_of(datetime.datetime))
-    signature_inception = attr.ib(validator=attr.validators.instance_of(datetime.datetime))
+    signature_expiration = attr.ib(
+        converter=convert_naive_datetime_to_utc,
+        validator=attr.validators.instance_of(datetime.datetime)
+    )
+    signature_inception = attr.ib(
+        converter=convert_naive_datetime_to_utc,
+        validator=attr.validators.instance_of(datetime.datetime)
+    )
     key_tag = attr.ib(validator=attr.validators.instance_of(six.integer_types))
     signers_name = attr.ib(
         converter=DnsNameUncompressed.convert,
